@@ -95,7 +95,15 @@ func genC18(seed int64, tier string) []caseOut {
 			case ty != "JsonWebKey2020" && r.Intn(3) == 0:
 				k["publicKeyBase58"] = randID(r, 30)
 			default:
-				k["publicKeyJwk"] = cleanJWK(genKey(r, []string{"P-256", "secp256k1", "Ed25519"}[r.Intn(3)]))
+				jwk := cleanJWK(genKey(r, []string{"P-256", "secp256k1", "Ed25519"}[r.Intn(3)]))
+				switch r.Intn(4) {
+				case 0: // an RSA key: its material is n and e
+					jwk = M{"kty": "RSA", "n": randID(r, 40), "e": "AQAB"}
+				case 1: // public members beyond kty / crv / x / y are key material too
+					jwk["alg"], jwk["use"], jwk["kid"] = "ES256", "sig", "kid-"+randID(r, 4)
+					jwk["key_ops"] = A{"verify"}
+				}
+				k["publicKeyJwk"] = jwk
 			}
 			keys = append(keys, k)
 		}
